@@ -8,7 +8,7 @@
    iter_index t it = number of items before position it (= distance from begin).
    All statements hold for every 1 <= maxCapacity <= 255, every capacityStep, blockCount, search strategy. *)
 From Coq Require Import ZArith List.
-From C02 Require Import BTreeModel BTreeParams BTreeBase SplitSeg IndexTable BTreeSearch BTreeIter BTreeAdd BTreeRemove BTreeCtx BTreeRemove2 BTreeTrack BTreeRemove3 BTreeRange BTreeTop BTreeHist BTreeRemoveTop BTreeRangeTop BTreeHist2 BTreeMerge BTreeFast BTreeFast2 BTreeInsRange BTreeHist3 NodeOps NodeScript BTreeDecide BTreeSplitGen GenPrimsC02 Gen_TreeFacts BTreeFastDecide BTreeSearchGen ProtoSyntaxC02 Gen_TreeProto ProtoSemC02 ProtoProofsC02.
+From C02 Require Import BTreeModel BTreeParams BTreeBase SplitSeg IndexTable BTreeSearch BTreeIter BTreeAdd BTreeRemove BTreeCtx BTreeRemove2 BTreeTrack BTreeRemove3 BTreeRange BTreeTop BTreeHist BTreeRemoveTop BTreeRangeTop BTreeHist2 BTreeMerge BTreeFast BTreeFast2 BTreeInsRange BTreeHist3 NodeOps NodeScript BTreeDecide BTreeSplitGen GenPrimsC02 Gen_TreeFacts BTreeFastDecide BTreeSearchGen ProtoSyntaxC02 Gen_TreeProto ProtoSemC02 ProtoProofsC02 ProtoIterC02.
 From Coq Require String.
 From MomoCommon Require Import GenPrelude.
 Import ListNotations.
@@ -717,6 +717,33 @@ Theorem C02_iterator_steps_agree_on_examples_partial :
   existsb (fun x => match x with (true, 0%nat, _) => true | _ => false end) (shape_of ex_t1) = true /\ cnt ex_t0 = 10%nat.
 Proof. exact iter_steps_agree_on_examples. Qed.
 Print Assumptions C02_iterator_steps_agree_on_examples_partial.
+
+(* ===== growth round 6: half of the general iterator theorem; asserts kept as obligations =====
+   The hand model's `next` (top-down recursion) is proved equal to a bottom-up "zipper" description that has exactly the structure of the
+   real operator++ / pvMoveIf / pvMove (step_fwd, then climb while the node is the last child of its parent).  What is still only
+   computed on examples (C02_iterator_steps_agree_on_examples_partial) is the other half: interpreter run = this zipper description. *)
+Theorem C02_next_is_bottom_up_zipper :
+  forall (maxCap d : nat) (r : node) (p : list nat) (j : nat) (m : node),
+    shape maxCap d r -> node_at p r = Some m -> (j < n_count m)%nat ->
+    next {| root := Some r; cnt := 0 |} (p, j) =
+    let '(q, i) := step_fwd d r p j in if (i <? cnt_at r q)%nat then (q, i) else up r q.
+Proof. exact next_is_zipper. Qed.
+Print Assumptions C02_next_is_bottom_up_zipper.
+
+(* the bottom-up climb (last child index first) is the hand model's top-down climb, for every path that exists in the tree *)
+Theorem C02_bottom_up_climb_is_model_climb :
+  forall (r : node) (p : list nat) (n : node) (pre : list nat) (m : node),
+    node_at pre r = Some n -> node_at p n = Some m ->
+    up r (pre ++ p) = match climb p n with Some (q, i) => (pre ++ q, i) | None => up r pre end.
+Proof. exact up_is_climb. Qed.
+Print Assumptions C02_bottom_up_climb_is_model_climb.
+
+(* MOMO_CHECK / MOMO_ASSERT statements are obligations of the interpreted code: operator-- at begin violates MOMO_CHECK(node != nullptr)
+   and the run ends Stuck (on the three example trees); all other runs of the examples theorem pass every obligation *)
+Theorem C02_iterator_decrement_at_begin_is_stuck_on_examples :
+  andb (andb (decr_at_begin_is_stuck ex_t0) (decr_at_begin_is_stuck ex_t1)) (decr_at_begin_is_stuck ex_t2) = true.
+Proof. exact iter_decr_at_begin_stuck_on_examples. Qed.
+Print Assumptions C02_iterator_decrement_at_begin_is_stuck_on_examples.
 
 (* non-vacuity: a concrete reachable state (maxCapacity 2, ten insertions with duplicates) has height 2 *)
 Theorem C02_nonvacuous_example :
